@@ -48,6 +48,10 @@ type Config struct {
 	// rewritten packages (whose Lock calls all park instead of blocking): interleavings *inside*
 	// critical sections, e.g. two ledgers' append sections meeting in package-level state.
 	FineHeld bool `json:"fineHeld,omitempty"`
+	// ClockCreepNs: the clock moves by this much at every scheduling step. Timers armed at
+	// different steps then have different deadlines and fire one at a time (the bubble's clock is
+	// discrete-event), instead of all at once at the next jump; and log dates differ.
+	ClockCreepNs int64 `json:"clockCreepNs,omitempty"`
 }
 
 type GenPlan struct {
